@@ -208,7 +208,7 @@ def lsOut : LState := { rpc := .out, reg := true, held := [], lnest := 0, lph :=
 def lsCs (n : Nat) (p : Bool) : LState := { rpc := .cs, reg := true, held := [], lnest := n, lph := p }
 
 /-- the hypotheses of `_urcu_memb_read_lock_refines` are satisfiable (fallback configuration, gp phase 1) -/
-example : ∃ out, exec 0 Gen.Src.«_urcu_memb_read_lock» (envMemb 0 0) [.int 4294967297] = .ok out ∧ _ :=
+example :=
   _urcu_memb_read_lock_refines true 0 (envMemb 0 0) [.int 4294967297] lsOut 0 rfl (fun _ => rfl)
     ⟨rfl, by decide⟩ (.inl ⟨rfl, rfl⟩) rfl (by decide) (by intro v h; cases h; exact ⟨true, rfl⟩)
 
@@ -245,7 +245,7 @@ example : absRunH true memb { kpc := .k0, r := 0 }
        .st memb.futex (.int 0) 0, .ext "futex_async" (wakeArgs memb) (.int 1), .fence .barrier] =
     some ([.k0, .kf true, .k1 (-1), .k2Wake, .k3], { kpc := .k4, r := -1 }) := by decide
 /-- hypotheses of `_urcu_memb_read_unlock_refines` satisfiable -/
-example : ∃ out, exec 0 Gen.Src.«_urcu_memb_read_unlock» (envMemb 0 4294967297) [.int (-1), .int 1] = .ok out ∧ _ :=
+example :=
   _urcu_memb_read_unlock_refines true 0 (envMemb 0 4294967297) [.int (-1), .int 1] (lsCs 1 true) 0 rfl (fun _ => rfl)
     ⟨rfl, by decide⟩ rfl (by decide) (by intro v h; cases h; exact ⟨-1, rfl⟩)
 
@@ -276,10 +276,10 @@ example : absRun true mb (lsCs 1 false) [.st mb.rdCtr (.int 0) 5, .ld mb.futex (
     some ([.rUnlock (0, false)], lsOut) := by decide
 example : absRunH true mb { kpc := .k0, r := 5 } [.st mb.rdCtr (.int 0) 5, .ld mb.futex (.int 0) 0, .fence .barrier] =
     some ([.k0, .kf true, .k1 0, .k2Skip], { kpc := .k4, r := 0 }) := by decide
-example : ∃ out, exec 0 Gen.Src.«_urcu_mb_read_lock» (envMb 4294967296) [.int 1] = .ok out ∧ _ :=
+example :=
   _urcu_mb_read_lock_refines true 0 (envMb 4294967296) [.int 1] { lsOut with lph := true }
     ⟨rfl, by decide⟩ (.inl ⟨rfl, rfl⟩) rfl (by decide) (by intro v h; cases h; exact ⟨false, rfl⟩)
-example : ∃ out, exec 0 Gen.Src.«_urcu_mb_read_unlock» (envMb 1) [.int 0] = .ok out ∧ _ :=
+example :=
   _urcu_mb_read_unlock_refines true 0 (envMb 1) [.int 0] (lsCs 1 false)
     ⟨rfl, by decide⟩ rfl (by decide) (by intro v h; cases h; exact ⟨0, rfl⟩)
 
@@ -294,10 +294,10 @@ example : (exec 0 Gen.Src.«_urcu_bp_read_unlock» (envBp 0 4294967297) []).toOp
     some [.fence .mb, .st (bp 7).rdCtr (.int 4294967296) 0, .fence .barrier] := by decide
 example : absRun true (bp 7) (lsCs 1 true) [.fence .mb, .st (bp 7).rdCtr (.int 4294967296) 0, .fence .barrier] =
     some ([.rUnlock (0, true)], { lsOut with lph := true }) := by decide
-example : ∃ out, exec 0 Gen.Src.«_urcu_bp_read_lock» (envBp 0 0) [.int 4294967297] = .ok out ∧ _ :=
+example :=
   _urcu_bp_read_lock_refines true 0 (envBp 0 0) [.int 4294967297] lsOut 0 7 rfl rfl (fun _ => rfl)
     ⟨rfl, by decide⟩ (.inl ⟨rfl, rfl⟩) rfl (by decide) (by intro v h; cases h; exact ⟨true, rfl⟩)
-example : ∃ out, exec 0 Gen.Src.«_urcu_bp_read_unlock» (envBp 0 4294967297) [] = .ok out ∧ _ :=
+example :=
   _urcu_bp_read_unlock_refines true 0 (envBp 0 4294967297) [] (lsCs 1 true) 0 7 rfl rfl ⟨rfl, by decide⟩ rfl (by decide)
 
 /-- `wake_up_gp` alone, updater asleep -/
